@@ -6,6 +6,8 @@ import Driver.Budget
 import Driver.PageLocks
 import Driver.KeyEnc
 import Driver.Simd
+import Driver.SqlJoin
+import Driver.SqlSub
 
 def main (args : List String) : IO UInt32 := do
   let stdin ← IO.getStdin
@@ -16,6 +18,8 @@ def main (args : List String) : IO UInt32 := do
   | ["pagelocks"] => Driver.loop stdin stdout (TurVerif.PageLocks.init false []) Driver.PageLocks.step; return 0
   | ["budget"] => Driver.loop stdin stdout (TurVerif.Budget.init 0 []) Driver.Budget.step; return 0
   | ["sqldb"] => Driver.loop stdin stdout ({} : TurVerif.SqlDb.DbState) Driver.SqlDb.step; return 0
+  | ["sqljoin"] => Driver.loop stdin stdout ({} : Driver.SqlJoin.St) Driver.SqlJoin.step; return 0
+  | ["sqlsub"] => Driver.loop stdin stdout ([] : TurVerif.Sql.Db) Driver.SqlSub.step; return 0
   | ["sql"] => Driver.loop stdin stdout ([] : TurVerif.Sql.Db) Driver.Sql.step; return 0
   | ["key"] => Driver.loop stdin stdout () Driver.KeyEnc.step; return 0
   | ["simd"] => Driver.loop stdin stdout Driver.Simd.St.init Driver.Simd.step; return 0
